@@ -86,7 +86,7 @@ func runC03(c map[string]interface{}) []Event {
 			}
 		})
 		return []Event{e}
-	case "line":
+	case "line", "len":
 		l := geom.LineString(decPath(c["path"], intDec))
 		q := decPoint(c["q"], intDec)
 		for k := range l {
